@@ -36,6 +36,7 @@ type World struct {
 	immutable  map[string]bool
 	macros     map[string]string
 	filterNames map[*ssa.Function]string
+	fieldHeaps  map[string][]string
 }
 
 func shortName(s string) string {
